@@ -74,7 +74,7 @@ Theorem C33_origin_passes_on_iff : forall sc bud,
     match skipn (N.to_nat n) sc with
     | [] => True
     | RNet :: _ => True
-    | RCode c :: _ => 500 <= c \/ (c = 202 /\ n = bud)
+    | RCode c :: _ => final_below <= c \/ (c = 202 /\ n = bud)
     end.
 Proof. exact Proof.C33.outcome_next. Qed.
 Print Assumptions C33_origin_passes_on_iff.
@@ -192,6 +192,10 @@ Proof. exact Proof.C33.check_means. Qed.
 Print Assumptions C33_check_means.
 
 (* ---- non-vacuity *)
+
+(* the literal of cluster_client.go:418 as extracted from the source of this run *)
+Example C33_final_below_is_500 : final_below = 500.
+Proof. vm_compute. reflexivity. Qed.
 
 (* three dependencies, two origins: 202-202-200 on the first origin; a 503 then 202-200 on the
    second; a dead first origin; then the put *)
